@@ -35,6 +35,9 @@ type poolCall struct {
 }
 
 func sameResult(op wire.Op, a, b HRes) string {
+	if m := terminatorLast(op, a); m != "" {
+		return m
+	}
 	ea, eb := errOutcome(a.Err), errOutcome(b.Err)
 	if strings.HasPrefix(ea, "error:") && strings.HasPrefix(eb, "error:") {
 		// both failed: which error the pool reports after its retries, and how many replies
@@ -64,6 +67,28 @@ func sameResult(op wire.Op, a, b HRes) string {
 		}
 		if x.Flags != v.Flags || !bytes.Equal(x.Data, v.Data) {
 			return fmt.Sprintf("request #%d (%q): pool returned %s flags %d, direct connection %s flags %d", v.Idx, v.Key, short(x.Data), x.Flags, short(v.Data), v.Flags)
+		}
+	}
+	return ""
+}
+
+// terminatorLast: a get shaped like a binary GETQ* GET batch (every key quiet but the
+// last) ends, on the wire, with the answer to its last key; the orchestrators forward
+// answers in the order the handler delivers them, so that answer must come last.
+func terminatorLast(op wire.Op, r HRes) string {
+	if (op.Kind != "get" && op.Kind != "gete") || op.SameOpq || len(op.Keys) < 2 || r.Err != nil {
+		return ""
+	}
+	last := len(op.Keys) - 1
+	for i := range op.Keys {
+		q := i < len(op.Quiets) && op.Quiets[i]
+		if (i < last) != q {
+			return "" // not that shape
+		}
+	}
+	for pos, ix := range r.Seq {
+		if ix == last && pos != len(r.Seq)-1 {
+			return fmt.Sprintf("the answer to the last, non-quiet key (#%d) arrived at position %d of %d: on the wire it ends the batch, and the answers delivered after it (requests %v) would be taken for replies to the next command", last, pos+1, len(r.Seq), r.Seq[pos+1:])
 		}
 	}
 	return ""
@@ -447,6 +472,12 @@ func (g *gen) poolOp(caller int, keys []string, opq *uint32, allowAppend bool) w
 			op.Keys = append(op.Keys, op.Keys[0])
 			op.Quiets = append(op.Quiets, g.p(1, 2))
 		}
+		if g.p(1, 3) {
+			// the shape a binary GETQ* GET batch has: every key quiet but the last
+			for i := range op.Quiets {
+				op.Quiets[i] = i < len(op.Quiets)-1
+			}
+		}
 		if g.p(1, 4) {
 			// what the text parser hands to the handler: every key with opaque 0 and not
 			// quiet, duplicates therefore indistinguishable
@@ -557,6 +588,9 @@ func relaxedCheck(caller int, call poolCall, wrote map[string]uint32) string {
 		return "panicked: " + r.Panic
 	}
 	prefix := []byte(fmt.Sprintf("c%d:", caller))
+	if m := terminatorLast(op, r); m != "" {
+		return m
+	}
 	if op.Kind == "get" || op.Kind == "gete" || op.Kind == "gat" {
 		n := len(op.Keys)
 		if op.Kind == "gat" {
@@ -795,7 +829,7 @@ func init() {
 			}
 			return n > 0
 		},
-		Rule:       "C06's set-up (1-64 callers on one real pool, drawn pool options) with faults: the pooled connection that carries backend request #i is closed before the request is applied, after it is applied but before the reply, after n bytes of the reply (n from {1, 8, 23, 24, 25, 27, 28, 29, 40, 200}: inside header, at its end, inside extras, inside the value), or after the reply (i drawn over the whole request stream, up to 3 such faults per run, EPIPE or silent write mode); up to 4 cuts of a live pooled connection at kernel-chosen instants (idle or busy); the backend going down (all connections lost, dials refused) for 5 ms-3 s and coming back; in a sixth of the runs with two or more callers a cold start: the backend refuses connections while every caller constructs its handler on its own goroutine, and comes up after 5 ms-3 s. While faults flow: no completion-time requirement; every call returns once with an error or with data this caller wrote (unique per caller, flags included), attributed to the right request, and a multi-key get without error has answered every key once. After the last fault: outstanding calls complete within the outage plus 8 simulated seconds, then a fresh fault-free workload through the same pool completes within 5 simulated seconds and equals the direct-handler baseline. Fault positions are sampled, not exhaustively enumerated; non-trivial = at least one fault fired; distinct = distinct plan hash",
+		Rule:       "C06's set-up (1-64 callers on one real pool, drawn pool options) with faults: the pooled connection that carries backend request #i is closed before the request is applied, after it is applied but before the reply, after n bytes of the reply (n from {1, 8, 23, 24, 25, 27, 28, 29, 40, 200}: inside header, at its end, inside extras, inside the value), or after the reply (i drawn over the whole request stream, up to 3 such faults per run, EPIPE or silent write mode); up to 4 cuts of a live pooled connection at kernel-chosen instants (idle or busy); the backend going down (all connections lost, dials refused) for 5 ms-3 s and coming back; in a sixth of the runs with two or more callers a cold start: the backend refuses connections while every caller constructs its handler on its own goroutine, and comes up after 5 ms-3 s. While faults flow: no completion-time requirement; every call returns once with an error or with data this caller wrote (unique per caller, flags included), attributed to the right request, and a multi-key get without error has answered every key once; for gets shaped like a binary GETQ* GET batch (a third of the multi-key gets) the answer to the last, non-quiet key arrives last. After the last fault: outstanding calls complete within the outage plus 8 simulated seconds, then a fresh fault-free workload through the same pool completes within 5 simulated seconds and equals the direct-handler baseline. Fault positions are sampled, not exhaustively enumerated; non-trivial = at least one fault fired; distinct = distinct plan hash",
 		Real:       realPool,
 		Stub:       stubPool,
 		FaultKinds: []string{"close_before", "close_applied", "close_mid", "close_after", "cut_connection", "backend_down"},
